@@ -50,7 +50,7 @@ package ro
 
 //@ func (*publishSubjectImpl).SubscribeWithContext
 //@   props C01 C03 C10 C13
-//@   ensures [one-critical-section|C10,C13] count(lock.mu) == 1 && heldat(mu, sub.*) && heldat(mu, loop.*)
+//@   ensures [one-critical-section|C10,C13] count(lock.mu) == 1 && heldat(mu, sub.ANY) && heldat(mu, loop.ANY)
 //@   alias sub=NewSubscriber()
 //@   track call.NewSubscriber observers.* NewSubscriber().*
 //@   ensures [wraps-then-registers-when-open|C01,C10] atlock(status) == 0 ==> trace(call.NewSubscriber(destination), observers.Store(_, res(call.NewSubscriber)), sub.Add(_))
@@ -118,7 +118,7 @@ package ro
 
 //@ func (*behaviorSubjectImpl).SubscribeWithContext
 //@   props C01 C03 C10 C13
-//@   ensures [one-critical-section|C10,C13] count(lock.mu) == 1 && heldat(mu, sub.*) && heldat(mu, loop.*)
+//@   ensures [one-critical-section|C10,C13] count(lock.mu) == 1 && heldat(mu, sub.ANY) && heldat(mu, loop.ANY)
 //@   alias sub=NewSubscriber()
 //@   track call.NewSubscriber observers.* NewSubscriber().*
 //@   ensures [open-replays-latest-then-registers|C01,C10] atlock(status) == 0 ==> trace(call.NewSubscriber(destination), sub.NextWithContext(atlock(last).A, atlock(last).B), observers.Store(_, res(call.NewSubscriber)), sub.Add(_))
@@ -185,7 +185,7 @@ package ro
 
 //@ func (*asyncSubjectImpl).SubscribeWithContext
 //@   props C01 C03 C10 C13
-//@   ensures [one-critical-section|C10,C13] count(lock.mu) == 1 && heldat(mu, sub.*) && heldat(mu, loop.*)
+//@   ensures [one-critical-section|C10,C13] count(lock.mu) == 1 && heldat(mu, sub.ANY) && heldat(mu, loop.ANY)
 //@   alias sub=NewSubscriber()
 //@   track call.NewSubscriber observers.* NewSubscriber().*
 //@   ensures [wraps-then-registers-when-open|C01,C10] atlock(status) == 0 ==> trace(call.NewSubscriber(destination), observers.Store(_, res(call.NewSubscriber)), sub.Add(_))
@@ -258,7 +258,7 @@ package ro
 
 //@ func (*replaySubjectImpl).SubscribeWithContext
 //@   props C01 C03 C10 C13
-//@   ensures [one-critical-section|C10,C13] count(lock.mu) == 1 && heldat(mu, sub.*) && heldat(mu, loop.*)
+//@   ensures [one-critical-section|C10,C13] count(lock.mu) == 1 && heldat(mu, sub.ANY) && heldat(mu, loop.ANY)
 //@   alias sub=NewSubscriber()
 //@   track call.NewSubscriber observers.* NewSubscriber().* loop.*
 //@   ensures [open-replays-buffer-then-registers|C01,C10] atlock(status) == 0 ==> trace(call.NewSubscriber(destination), loop.L0, observers.Store(_, res(call.NewSubscriber)), sub.Add(_))
@@ -329,7 +329,7 @@ package ro
 
 //@ func (*unicastSubjectImpl).SubscribeWithContext
 //@   props C01 C03 C10 C13
-//@   ensures [one-critical-section|C10,C13] count(lock.mu) == 1 && heldat(mu, sub.*) && heldat(mu, loop.*)
+//@   ensures [one-critical-section|C10,C13] count(lock.mu) == 1 && heldat(mu, sub.ANY) && heldat(mu, loop.ANY)
 //@   alias sub=NewSubscriber()
 //@   track call.NewSubscriber NewSubscriber().* loop.*
 //@   ensures [first-subscriber-gets-backlog-then-attached|C01,C10] atlock(status) == 0 && atlock(observer) == nil ==> trace(call.NewSubscriber(destination), loop.L0, sub.Add(_)) && atunlock(observer) == res(call.NewSubscriber) && len(atunlock(values)) == 0
